@@ -4,6 +4,7 @@ between the SEED-TABLE markers."""
 import json, os, re
 V = os.path.dirname(os.path.dirname(os.path.abspath(__file__)))
 rows = []
+retired = []
 per_round = {}
 n = own = anyc = conf = 0
 for sid in sorted(os.listdir(os.path.join(V, "seeded"))):
@@ -11,6 +12,9 @@ for sid in sorted(os.listdir(os.path.join(V, "seeded"))):
     if not os.path.exists(mp):
         continue
     m = json.load(open(mp))
+    if m.get("retired"):
+        retired.append("| %s | — | retired: %s | — | — | %s |" % (sid, m["retired"].replace("|", "\\|")[:230], ", ".join(m["fired"]) or "none (as it should be)"))
+        continue
     what = m.get("summary", "")
     if not what:
         try:
@@ -26,7 +30,7 @@ for sid in sorted(os.listdir(os.path.join(V, "seeded"))):
     anyc += 1 if m["fired"] else 0
     fired = ", ".join(m["fired"]) or "**none**"
     k = int(sid.split("-")[1])
-    rnd = 1 if k <= 2 else (2 if k <= 5 else (3 if k <= 7 else 4))
+    rnd = 1 if k <= 2 else (2 if k <= 5 else (3 if k <= 7 else (4 if k <= 9 else 5)))
     per_round.setdefault(rnd, [0, 0, 0])
     per_round[rnd][0] += 1
     per_round[rnd][1] += 1 if m["detected_by_own_property"] else 0
@@ -34,7 +38,7 @@ for sid in sorted(os.listdir(os.path.join(V, "seeded"))):
     rows.append("| %s | %d | %s | %s | %s | %s |" % (sid, rnd, what, "yes" if m["confirmed"] else "NO", "yes" if m["detected_by_own_property"] else "**no**", fired))
 summary = "; ".join("round %d: %d seeds, %d caught by the check of their own property, %d by at least one check" % (r, v[0], v[1], v[2]) for r, v in sorted(per_round.items()))
 table = ["Seeded faults: %d kept, %d confirmed independently, %d detected by the check of the property they target, %d detected by at least one check (quick tier, seed 0). %s." % (n, conf, own, anyc, summary), "",
-         "| id | round | change (first line of the sub-agent's notes) | confirmed | own check fires | checks that report a VIOLATION |", "|---|---|---|---|---|---|"] + rows
+         "| id | round | change (first line of the sub-agent's notes) | confirmed | own check fires | checks that report a VIOLATION |", "|---|---|---|---|---|---|"] + rows + retired
 p = os.path.join(V, "DESIGN.md")
 s = open(p).read()
 s = re.sub(r"<!-- SEED-TABLE-BEGIN -->.*<!-- SEED-TABLE-END -->", "<!-- SEED-TABLE-BEGIN -->\n" + "\n".join(table) + "\n<!-- SEED-TABLE-END -->", s, flags=re.S)
